@@ -206,6 +206,22 @@ func rootOf(e ast.Expr) *ast.Ident {
 	}
 }
 
+// passedAsArg: lit is an argument of a call inside n (not the function being called).
+func passedAsArg(n ast.Node, lit *ast.FuncLit) bool {
+	found := false
+	ast.Inspect(n, func(m ast.Node) bool {
+		if call, ok := m.(*ast.CallExpr); ok {
+			for _, a := range call.Args {
+				if ast.Unparen(a) == ast.Expr(lit) {
+					found = true
+				}
+			}
+		}
+		return true
+	})
+	return found
+}
+
 func c20Total(p *core.Program, r *core.Report, t *types.Named) {
 	for _, fi := range p.MethodsOf(t) {
 		name := fi.Obj.Name()
@@ -269,6 +285,9 @@ func c20Total(p *core.Program, r *core.Report, t *types.Named) {
 					return true
 				})
 				ast.Inspect(n, func(m ast.Node) bool {
+					if lit, isLit := m.(*ast.FuncLit); isLit && passedAsArg(n, lit) {
+						return false // a callback handed to a helper runs where the helper calls it, not here
+					}
 					ta, ok := m.(*ast.TypeAssertExpr)
 					if !ok || ta.Type == nil || commaOK[ta] {
 						return true
